@@ -173,6 +173,40 @@ theorem quota_child_share_respects_guarantee (w : World) (c : Nat) (q : PQ) (hq 
   ⟨childPreemptableUsage_guaranteed w c q hq g u hg hne hu,
    fun hgw k gv hk hle => childPreemptableUsage_respects_guarantee w c q hq g u hg hne hgw hu k gv hk hle⟩
 
+/-! ### quota change preemption: when it is due -/
+
+/-- FULL STATEMENT (false for the unchanged code, see the refutation): along every history of configuration updates
+    (maximum, quota.preemption.delay), clock advances and attempts, a scheduled start is exactly (time at which the
+    pending lowering was first scheduled) + (delay in force) — never earlier. -/
+def quota_start_never_early : Prop :=
+  ∀ (managed : Bool) (alloc : Res) (s0 : QuotaT) (steps : List QuotaStep), timingOK s0 = true →
+    timingOK (runQuota managed alloc (s0, 0) steps).1 = true
+
+/-- witness: usage {15,15}; maximum {20,20} lowered to {10,10} with delay 10m (due at 600 s), then changed to {9,11} —
+    neither lower nor higher — with delay 30m: setPreemptionTime has no branch for it, the start stays at 600 s although
+    the delay in force is 1800 s (replayed on the code: corpus/C08/preempt-quota-incomparable-change-keeps-early-start.jsonl) -/
+theorem quota_start_never_early_refuted : ¬ quota_start_never_early := fun h =>
+  absurd (h true [("cpu", 15), ("mem", 15)] { max := some [("cpu", 20), ("mem", 20)], delay := 0, start := none, base := none }
+    [.conf (some [("cpu", 10), ("mem", 10)]) 600, .conf (some [("cpu", 9), ("mem", 11)]) 1800] rfl) (by decide)
+
+/-- PROVED PART: it holds along every history in which no update changes the delay of a pending start across an
+    incomparable change of the maximum (`goodHist`: lowerings, raises, equal maxima with any delay change are all fine;
+    consecutive lowerings with a LARGER delay move the start LATER by the difference). -/
+theorem quota_start_never_early_partial (managed : Bool) (alloc : Res) (s0 : QuotaT) (steps : List QuotaStep)
+    (h0 : timingOK s0 = true) (hg : goodHist managed alloc (s0, 0) steps = true) :
+    timingOK (runQuota managed alloc (s0, 0) steps).1 = true :=
+  runQuota_keeps managed alloc steps (s0, 0) h0 hg
+
+/-- ... and preemption never fires before it: tryAcquirePreemption succeeds only when (time the pending lowering was
+    scheduled) + (delay in force) has passed. -/
+theorem quota_fires_only_after_delay (managed : Bool) (alloc : Res) (s : QuotaT) (now : Int) (h : timingOK s = true)
+    (hf : (tryAcquire managed alloc s now).2 = true) : ∃ b, s.base = some b ∧ b + s.delay ≤ now :=
+  tryAcquire_fires_late managed alloc s now h hf
+
+/-- consecutive lowerings with a larger delay: the start moves later by the difference (10m → 30m: 600 s → 1800 s) -/
+example : (runQuota true [("cpu", 15)] ({ max := some [("cpu", 20)], delay := 0, start := none, base := none }, 0)
+    [.conf (some [("cpu", 10)]) 600, .advance 300, .conf (some [("cpu", 9)]) 1800]).1.start = some 1800 := by decide
+
 /-! ### non-vacuity -/
 
 /-- the former Q2 witness: root.p.y (guaranteed {cpu8,mem4}, uses {cpu2,mem6}) only offers the 2 mem above its guarantee -/
